@@ -38,6 +38,12 @@ CHECKS = {
  "C15": dict(level="exploration", technique="exhaustive small-scope enumeration of range lists over a universe embedded at both ends of the code space (rang3 vs own interval arithmetic), and of class expressions/literals written as lox text, decided on the emitted tables by the product search",
    text="Flatten/Normalize/Subtract agree with independent interval arithmetic on every list of the small universe (sorted, disjoint, same set, exact partition); every enumerated class expression and literal, through the real front end and generator, matches exactly the code points of its set-theoretic meaning at both end points and a middle point of every atom; overlapping classes in one mode keep their meaning after splitting and merging.",
    note="Trusted: internal/ivl. Bounded by list length and the boundary-point menus.", ref="DESIGN.md section C15"),
+ "C14": dict(level="exploration", technique="complete exploration of a finite space: 4 directories x 3 bootstrap stages, byte comparison of regenerated and checked-in files",
+   text="The generator built from the current tree regenerates internal/parser and the three examples byte for byte (over the checked-in files and after deleting them), and the generator rebuilt from the regenerated front end does so again.",
+   note="Trusted: go build with the sandbox toolchain; rsync for scratch copies.", ref="DESIGN.md section C14"),
+ "C19": dict(level="exploration", technique="exhaustive enumeration of declaration layouts (tokens, modes, @external, @emit, two files) up to a length bound; read-back of constants, _TokenToString AST, decoded lexer accept parameters and parser table keys; sentence written with expected constants executed on the real runtime",
+   text="For every layout the three generated files agree on one numbering, which is the textual declaration order with EOF=0 and ERROR=1: const block, _TokenToString, accept parameters in the decoded mode tables, keys of the decoded parser tables (against the reference automaton), and an end-to-end parse using the expected constants.",
+   note="Expected numbering computed by the harness from the text it printed. @external names cannot be referenced from the parser section (lox rejects that), so the parser references token rules only.", ref="DESIGN.md section C19"),
 }
 
 NA_REASON = "check not built yet (work in progress; see DESIGN.md for the plan)"
